@@ -178,6 +178,11 @@ class Factory(object):
     def zs(self, v):
         return zs(v)
 
+    def method(self, obj, name):
+        """bound method value obj.name (e.g. the tokenizer's state)"""
+        from .values import BoundMethod
+        return BoundMethod(obj, obj.cls.find_method(name))
+
     def abstract_trie(self):
         from .triespec import abstract_trie
         return abstract_trie(self)
